@@ -81,12 +81,15 @@ def evaluate(ck, vecs, h):
         jobs.append((v, "file", body_file(v)))
         if heredoc_ok(v):
             jobs.append((v, "heredoc", body_heredoc(v)))
-    ires = vlib.run_harness(h, "shfast", [{"src": RESET + s + "\n"} for _, _, s in jobs], shards=16)
-    bres = vlib.run_shell_evals([RESET + s for _, _, s in jobs], locale="C.utf8", jobs=4, per_process=4000)
     direct = [v for v in vecs if v["mode"] != "reply"]
-    dres = vlib.run_harness(h, "readfields", [{"line": raw(v["line"]), "ifs": {"set": v["ifs"]["set"], "val": raw(v["ifs"]["val"])},
-                                               "n": -1 if v["mode"] == "array" else len(NAMES[v["mode"]]),
-                                               "raw": v["raw"]} for v in direct], shards=8)
+    from concurrent.futures import ThreadPoolExecutor
+    with ThreadPoolExecutor(max_workers=3) as ex:     # the three bindings run side by side
+        f_i = ex.submit(vlib.run_harness, h, "shfast", [{"src": RESET + s + "\n"} for _, _, s in jobs], shards=8)
+        f_b = ex.submit(vlib.run_shell_evals, [RESET + s for _, _, s in jobs], locale="C.utf8", jobs=4, per_process=4000)
+        f_d = ex.submit(vlib.run_harness, h, "readfields", [
+            {"line": raw(v["line"]), "ifs": {"set": v["ifs"]["set"], "val": raw(v["ifs"]["val"])},
+             "n": -1 if v["mode"] == "array" else len(NAMES[v["mode"]]), "raw": v["raw"]} for v in direct], shards=4)
+        ires, bres, dres = f_i.result(), f_b.result(), f_d.result()
 
     def verdict(v, eng, script, spec, dev, impl, bash):
         ck.cov["evaluations"] += 1
